@@ -109,7 +109,10 @@ def main():
              "kind_free_text": "probe types / recorders linked into generated programs (call traces, recording hasher, term algebra, trait-solver probes)"},
         ],
         "checks": [],
-        "notes": "All checks are runtime monitors over executions of the real expander / the real generated code; see DESIGN.md.",
+        "notes": "All checks are runtime monitors over executions of the real expander / the real generated code; see DESIGN.md. "
+                 "Known findings (genuine defects recorded, not repaired) and fixed ones are listed in known_findings.json "
+                 "(status `known` entries are matched by exact signature and printed as KNOWN-FINDING lines; `fixed` entries suppress nothing); "
+                 "seeded changes and which checks catch them: seeded/README.md, seeded/RESULTS.json.",
         "not_applicable": [{"property_id": p, "reason": r} for p, r in sorted(NOT_YET.items())],
     }
     for pid in sorted(CHECKS):
